@@ -238,4 +238,70 @@ theorem fileOffsetToSvma_no_panic (ranges : List Range) (h : ∀ r ∈ ranges, r
       · exact ih'
     · exact ih'
 
+
+/-! ### completeness: no spurious miss -/
+
+/-- a named entry that is followed by another entry answers every address from its own start up to (not
+including) the next entry's address -/
+theorem lookupRel_complete {es : List Entry} (hs : StrictSorted es) {i : Nat} {e nxt : Entry} {n : Name}
+    (he : es[i]? = some e) (hn : es[i + 1]? = some nxt) (hname : e.kind.name e.addr = some n)
+    {a : Nat} (h1 : e.addr ≤ a) (h2 : a < nxt.addr) :
+    lookupRel es a = .hit (e.addr, nxt.addr, n) := by
+  have hp : pickIndex (es.map (·.addr)) a = some i := by
+    apply pickIndex_of_spec _ _ i e.addr (strict_keys_le hs) (by simp [List.getElem?_map, he]) h1
+    intro k' hk'
+    simp [List.getElem?_map, hn] at hk'
+    omega
+  unfold lookupRel
+  rw [hp]
+  simp only
+  rw [he]
+  simp only
+  rw [hn]
+  simp only
+  rw [hname]
+
+theorem getElem?_lt' {α : Type} {l : List α} {i : Nat} {x : α} (h : l[i]? = some x) : i < l.length := by
+  rcases Nat.lt_or_ge i l.length with h' | h'
+  · exact h'
+  · simp [List.getElem?_eq_none h'] at h
+
+/-- an entry that is not the one with the greatest address has a successor -/
+theorem strict_has_next {es : List Entry} (hs : StrictSorted es) {i : Nat} {e x : Entry}
+    (he : es[i]? = some e) (hx : x ∈ es) (hlt : e.addr < x.addr) :
+    ∃ nxt, es[i + 1]? = some nxt ∧ e.addr < nxt.addr ∧ nxt.addr ≤ x.addr := by
+  obtain ⟨j, hj⟩ := List.getElem?_of_mem hx
+  have hil := getElem?_lt' he
+  have hjl := getElem?_lt' hj
+  have hpw := List.pairwise_iff_getElem.mp hs
+  simp [hil] at he
+  simp [hjl] at hj
+  have hij : i < j := by
+    rcases Nat.lt_trichotomy i j with h | h | h
+    · exact h
+    · subst h; subst he; subst hj; omega
+    · have := hpw j i hjl hil h; subst he; subst hj; omega
+  have h1l : i + 1 < es.length := by omega
+  refine ⟨es[i + 1], by simp [h1l], ?_, ?_⟩
+  · have := hpw i (i + 1) hil h1l (by omega); subst he; exact this
+  · rcases Nat.lt_or_ge (i + 1) j with h | h
+    · have := hpw (i + 1) j h1l hjl h; subst hj; omega
+    · have : j = i + 1 := by omega
+      subst this; subst hj; omega
+
+/-- a lookup at the start of an enumerated symbol that is not the last entry of the list answers with
+exactly that symbol -/
+theorem lookupRel_at_enumerated {es : List Entry} (hs : StrictSorted es) {s : Nat} {n : Name}
+    (hmem : (s, n) ∈ iterSymbols es) (hnl : ∃ x ∈ es, s < x.addr) :
+    ∃ e, lookupRel es s = .hit (s, e, n) ∧ s < e := by
+  obtain ⟨ent, hent, haddr, hname⟩ := mem_iterSymbols.mp hmem
+  obtain ⟨x, hx, hsx⟩ := hnl
+  obtain ⟨i, hi⟩ := List.getElem?_of_mem hent
+  dsimp only at haddr hname
+  obtain ⟨nxt, hn, hlt, _⟩ := strict_has_next hs hi hx (by omega)
+  refine ⟨nxt.addr, ?_, by omega⟩
+  have := lookupRel_complete hs hi hn hname (a := s) (by omega) (by omega)
+  rw [haddr] at this
+  exact this
+
 end SymList
